@@ -6,7 +6,7 @@
  "restrict_fp": ["hashtable_notify.function_pointer_call.1/verif_notify_cb", "hashtable_notify.function_pointer_call.2/verif_notify_cb",
                  "hashtable_notify.function_pointer_call.3/verif_notify_cb"],
  "stubs": ["map notifier callback (records event, key, old and new value per notifier)", "calloc/malloc (scripted: succeed or fail per enumerated case)"],
- "expect_classes": ["assertion"], "timeout": 300}
+ "expect_classes": ["assertion"], "timeout": 900}
 */
 /* hashtable_iter_next from ANY iterator position of any well-formed bounded state (per-call form of "a
  * complete iteration yields every present key exactly once", C17, and of the iterator clauses of C18):
